@@ -37,6 +37,7 @@ def main(tier, replay):
     okm, modelrun = vlib.build_model("Latch")
     okg, exe = vlib.go_build("latch")
     stats, mism, pfails, stress, samples, classes, passes = {}, [], [], [], [], {}, {}
+    stress_crash = None
     distinct = 0
     if okg and okm:
         err = None
@@ -54,10 +55,12 @@ def main(tier, replay):
             rc, cmp_out = vlib.sh([modelrun], inp=lines, timeout=1500)
             if rc != 0:
                 err = "modelrun failed: " + cmp_out[-600:]
+        sout, stress_crash = "", None
         if err is None:
             rc, sout = vlib.sh([exe, "stress"], env=env, timeout=1500)
             if rc != 0:
-                err = "stress driver failed rc=%d: %s" % (rc, sout[-600:])
+                # a panic inside the real scheduler goroutine cannot be recovered by the driver
+                stress_crash = "rc=%d: %s" % (rc, sout[-900:])
         if err:
             v.violation({"kind": "harness", "correspondence": "Latch driver / modelrun", "error": err}, has_input=False)
         else:
@@ -106,6 +109,9 @@ def main(tier, replay):
         v.violation({"kind": "property-oracle", "oracle": "C17_" + pf[0], "case": [pf[2], pf[3]], "caseid": pf[1], "detail": pf[4] if len(pf) > 4 else "",
                      "what": "property oracle failed on the implementation (internal/latch) after the op sequence in case[1] on the configuration in case[0]",
                      "model": [m for m in mism if m[2] == pf[2]][:1]})
+    if okg and okm and stress_crash:
+        v.violation({"kind": "property-oracle", "oracle": "C17 stress monitor (crash)", "case": ["stress", "seed=%d" % vlib.SEED],
+                     "detail": stress_crash, "what": "the concurrent stress through LatchesScheduler crashed (panic in the scheduler goroutine: release of a latch the lock does not hold, or similar); rerun with VERIF_SEED=%d" % vlib.SEED})
     for st in stress:
         if st[-1] != "ok":
             v.violation({"kind": "property-oracle", "oracle": "C17 stress monitor", "case": ["stress", st[0]], "detail": st[1],
